@@ -242,8 +242,24 @@ def ref_ring(faces, marked):
     return {fi for fi, f in enumerate(faces) if fi in marked or nodes.intersection(f)}
 
 
-def body_clip_mesh(ctx, mesh, variant, buffer, via, free=None):
+def _short_lived_meshes():
+    """Other meshes buffered and dropped earlier in the same process: nothing they leave behind may reach the next one."""
+    import gc
+    from emsarray.conventions.ugrid import UGrid, buffer_faces
+    for rep in range(3):
+        for m in ('strip5', 'block', 'fan', 'qqqtt', 'tq'):
+            d = builders.ugrid(m, with_edges=True)
+            c = UGrid(d)
+            t = c.topology
+            buffer_faces(numpy.array([len(builders.MESHES[m][1]) - 1], dtype=numpy.intp), t)
+            del t, c, d
+            gc.collect()
+
+
+def body_clip_mesh(ctx, mesh, variant, buffer, via, free=None, after_others=False):
     from emsarray.conventions.ugrid import UGrid, buffer_faces, mask_from_face_indexes
+    if after_others and not ctx.symbolic:
+        _short_lived_meshes()
     kw = {
         'noedge': dict(),
         'edges': dict(with_edges=True),
@@ -423,6 +439,10 @@ def cases(tier):
             for via in ('make_clip_mask', 'functions'):
                 yield Case(f'clipmesh:{mesh}:faceface:buf{buffer}:{via}', body_clip_mesh,
                            dict(mesh=mesh, variant='faceface', buffer=buffer, via=via), max_paths=5000)
+    for mesh in ('tqp', 'fan'):
+        for via in ('make_clip_mask', 'functions'):
+            yield Case(f'clipmesh:{mesh}:edges:buf1:{via}:after-other-meshes', body_clip_mesh,
+                       dict(mesh=mesh, variant='edges', buffer=1, via=via, after_others=True), max_paths=5000)
     for mesh in (('tqp',) if q else ('tqp', 'qqqtt')):
         for buffer in (0, 1):
             yield Case(f'clipmesh:{mesh}:mixedbase:buf{buffer}:make_clip_mask', body_clip_mesh,
